@@ -271,36 +271,48 @@ def World.finish (w : World) (f : Nat) (d : Dir) (r : Res) : World :=
   { w1 with pend := fun g => if g = f then none else w.pend g,
             outcome := fun g => if g = f then some r else w.outcome g }
 
-/-- `guard` = does `janet_async_start_fiber` refuse to take over an occupied slot (Gen.Stream.guards…Slot). -/
-def World.step (guardR guardW : Bool) (w : World) : Act → World
-  | .start f d fin =>
-    if (w.pend f).isSome then w                         -- a suspended fiber cannot issue an operation
-    else if w.closed then { w with outcome := fun g => if g = f then some .raised else w.outcome g }   -- janet_stream_flags
-    else
-      let guard := match d with | .rd => guardR | .wr => guardW
-      let occupied : Bool := match w.slot d with
-        | some g => (g != f) && (w.pend g).isSome
-        | none => false
-      if guard = true ∧ occupied = true then
-        { w with outcome := fun g => if g = f then some .raised else w.outcome g }
-      else
-        let w1 := w.setSlot d (some f)
-        let w2 := { w1 with pend := fun g => if g = f then some d else w.pend g,
-                            outcome := fun g => if g = f then none else w.outcome g }
-        if fin then w2.finish f d .completed else w2
-  | .ready d fin =>
-    match w.slot d with
-    | some f => if w.pend f = some d ∧ fin = true then w.finish f d .completed else w
+def guardOf (guardR guardW : Bool) : Dir → Bool
+  | .rd => guardR
+  | .wr => guardW
+
+/-- is the slot held by another fiber that still waits? -/
+def World.occupied (w : World) (f : Nat) (d : Dir) : Bool :=
+  match w.slot d with
+  | some g => (g != f) && (w.pend g).isSome
+  | none => false
+
+def World.raise (w : World) (f : Nat) : World :=
+  { w with outcome := fun g => if g = f then some .raised else w.outcome g }
+
+/-- `janet_async_start_fiber` (+ the INIT event).  `guard` = it refuses to take over an occupied slot. -/
+def World.start (guard : Bool) (w : World) (f : Nat) (d : Dir) (fin : Bool) : World :=
+  if (w.pend f).isSome then w                         -- a suspended fiber cannot issue an operation
+  else if w.closed then w.raise f                     -- janet_stream_flags: "stream is closed"
+  else if guard = true ∧ w.occupied f d = true then w.raise f
+  else
+    let w1 := w.setSlot d (some f)
+    let w2 : World := { w1 with pend := fun g => if g = f then some d else w.pend g,
+                                outcome := fun g => if g = f then none else w.outcome g }
+    if fin then w2.finish f d .completed else w2
+
+/-- readiness dispatch of `janet_loop1_impl` for one direction -/
+def World.ready (w : World) (d : Dir) (fin : Bool) : World :=
+  match w.slot d with
+  | some f => if w.pend f = some d ∧ fin = true then w.finish f d .completed else w
+  | none => w
+
+/-- one half of `janet_stream_close`: notify the fiber in slot `d` (CLOSE event), clear the slot -/
+def World.closeDir (w : World) (d : Dir) (r : Res) : World :=
+  let w1 := match w.slot d with
+    | some f => if (w.pend f).isSome then w.finish f d r else w
     | none => w
-  | .close =>
-    let w1 := match w.slotR with
-      | some f => if (w.pend f).isSome then (w.finish f .rd .completed) else w
-      | none => w
-    let w1 := { w1 with slotR := none }
-    let w2 := match w1.slotW with
-      | some f => if (w1.pend f).isSome then (w1.finish f .wr .raised) else w1
-      | none => w1
-    { w2 with slotW := none, closed := true }
+  w1.setSlot d none
+
+/-- `guardR/guardW` = does `janet_async_start_fiber` refuse to take over an occupied slot (Gen.Stream.guards…Slot). -/
+def World.step (guardR guardW : Bool) (w : World) : Act → World
+  | .start f d fin => w.start (guardOf guardR guardW d) f d fin
+  | .ready d fin => w.ready d fin
+  | .close => { ((w.closeDir .rd .completed).closeDir .wr .raised) with closed := true }
 
 def World.run (guardR guardW : Bool) : World → List Act → World
   | w, [] => w
